@@ -4,7 +4,7 @@
 set -e
 cd "$(dirname "$0")/.."
 export GOFLAGS=-mod=mod GOPROXY=off GOSUMDB=off GOTOOLCHAIN=local
-mkdir -p .build evidence replays
+mkdir -p .build evidence replays lean/Vegeta/Extracted
 (cd extract && go build -o ../.build/extract .)
 .build/extract -repo /repo -out lean/Vegeta/Extracted/Facts.lean
 cp /repo/go.sum harness/go.sum
